@@ -2,6 +2,11 @@
 
 from __future__ import annotations
 
+import re
+
+# A leading word of this shape is read by bash as an assignment prefix, not as a command name
+_ASSIGNMENT_SHAPE = re.compile(r"[A-Za-z_][A-Za-z0-9_]*(\[[^\]]*\])?\+?=")
+
 
 def bash_quote(s: str) -> str:
     """Quote a string for safe use in bash.
@@ -24,5 +29,13 @@ def bash_quote(s: str) -> str:
 
 
 def bash_join(tokens: list[str]) -> str:
-    """Join tokens into a bash command string with proper quoting."""
-    return " ".join(bash_quote(t) for t in tokens)
+    """Join tokens into a bash command string with proper quoting.
+
+    The first token is the command name: when it looks like NAME=value it is
+    quoted, so that re-parsing the result does not turn it into an assignment
+    prefix of the following word.
+    """
+    quoted = [bash_quote(t) for t in tokens]
+    if tokens and quoted[0] == tokens[0] and _ASSIGNMENT_SHAPE.match(tokens[0]):
+        quoted[0] = "'" + tokens[0] + "'"
+    return " ".join(quoted)
